@@ -160,7 +160,7 @@ TWINS += [
     {"name": "init-sort-key-nested-function", "edits": [(A, _SORT, "            def rank(pair):\n                return self._specificity(pair[0]), pair[1]\n\n            super().__init__(sorted(values, key=rank, reverse=True))\n")]},
     {"name": "base-match-result-variable", "edits": [(A, _BASE_VM, '        matched = False\n        if item == "*":\n            matched = True\n        elif item.lower() == value.lower():\n            matched = True\n        return matched')]},
     {"name": "language-match-normalised-locals", "edits": [(A, _LANG_VM, '        if item == "*":\n            return True\n        offered = _normalize_lang(value)\n        accepted = _normalize_lang(item)\n        return offered == accepted')]},
-    {"name": "charset-match-in-module-helper", "edits": [(A, _CHARSET_VM, '        return item == "*" or _same_charset(value, item)'), (A, "class CharsetAccept(Accept):", "def _same_charset(a, b):\n    return _normalize(a) == _normalize(b)\n\n\nclass CharsetAccept(Accept):")]},
+    {"name": "charset-match-in-module-helper", "edits": [(A, _CHARSET_VM, '        return item == "*" or _same_charset(value, item)'), (A, "class CharsetAccept(Accept):", "def _norm_charset(name):\n    try:\n        return codecs.lookup(name).name\n    except LookupError:\n        return name.lower()\n\n\ndef _same_charset(a, b):\n    return _norm_charset(a) == _norm_charset(b)\n\n\nclass CharsetAccept(Accept):")]},
     {"name": "mime-specificity-append-loop", "edits": [(A, _MIME_SPEC, '        out = []\n        for part in _mime_split_re.split(value):\n            out.append(part != "*")\n        return tuple(out)')]},
     {"name": "mime-split-in-helper-returning-triple", "edits": [
         (A, "class MIMEAccept(Accept):", "def _mime_parts(text):\n    pieces = _normalize_mime(text)\n    return pieces[0], pieces[1], sorted(pieces[2:])\n\n\nclass MIMEAccept(Accept):"),
@@ -193,7 +193,7 @@ MUTANTS += [
     {"name": "language-fallback-loop-forgets-q", "expect": "R17.2", "edits": [(A, _LANG_FALLBACK, "        primary = []\n        for tag, q in self:\n            primary.append((_locale_delim_re.split(tag, 1)[0], 1))\n        fallback = Accept(primary)\n")]},
     {"name": "language-mapping-keeps-last-offer-per-tag", "expect": "R17.2", "edits": [(A, _LANG_STAGE3, "        by_primary = {_locale_delim_re.split(item, 1)[0]: item for item in matches}\n        result = super().best_match(list(by_primary))\n"), (A, _MAPBACK, "            return by_primary[result]")]},
     {"name": "language-fallback-object-is-language-accept", "expect": "R17.2", "edits": [(A, "        fallback = Accept(\n            [(_locale_delim_re", "        fallback = LanguageAccept(\n            [(_locale_delim_re")]},
-    {"name": "charset-helper-compares-raw-range", "expect": "R17.4", "edits": [(A, _CHARSET_VM, '        return item == "*" or _same_charset(value, item)'), (A, "class CharsetAccept(Accept):", "def _same_charset(a, b):\n    return _normalize(a) == b\n\n\nclass CharsetAccept(Accept):")]},
+    {"name": "charset-helper-compares-raw-range", "expect": "R17.4", "edits": [(A, _CHARSET_VM, '        return item == "*" or _same_charset(value, item)'), (A, "class CharsetAccept(Accept):", "def _norm_charset(name):\n    try:\n        return codecs.lookup(name).name\n    except LookupError:\n        return name.lower()\n\n\ndef _same_charset(a, b):\n    return _norm_charset(a) == b\n\n\nclass CharsetAccept(Accept):")]},
     {"name": "base-match-result-variable-loses-wildcard", "expect": "R17.4", "edits": [(A, _BASE_VM, '        matched = False\n        if item.lower() == value.lower():\n            matched = True\n        return matched')]},
     {"name": "mime-helper-early-returns-lose-subtype-wildcard", "expect": "R17.4", "edits": [
         (A, "        return (\n            (item_type == \"*\" and item_subtype == \"*\")\n            or (value_type == \"*\" and value_subtype == \"*\")\n        ) or (\n            item_type == value_type\n            and (\n                item_subtype == \"*\"\n                or value_subtype == \"*\"\n                or (item_subtype == value_subtype and item_params == value_params)\n            )\n        )",
@@ -633,4 +633,50 @@ TWINS += [
 MUTANTS += [
     {"name": "q-helper-condexp-caller-loses-upper-bound", "expect": "R17.1", "edits": [(H, _OVERLOAD, _R3_QHELPER_CONDEXP + _OVERLOAD), (H, _PAH_LOOP, _R3_QHELPER_LOOP.replace(" or q > 1", ""))]},
     {"name": "q-helper-condexp-pattern-test-under-truthiness", "expect": "R17.1", "edits": [(H, _OVERLOAD, _R3_QHELPER_CONDEXP.replace("    if text is not None:\n", "    if text:\n") + _OVERLOAD), (H, _PAH_LOOP, _R3_QHELPER_LOOP)]},
+]
+
+# ---- round 4: defects that only a *sequence* of offers shows (part of the best-so-far standard left behind by a branch
+# that replaces the choice), and the charset normaliser on both outcomes of codecs.lookup ----
+_UPD = "                result = server_item\n                best_quality = quality\n                best_specificity = specificity\n"
+_R4_TUPLE_STATE = [
+    (A, "        best_quality: float = -1\n        best_specificity: tuple[float, ...] = (-1,)\n", "        best: tuple[float, tuple[float, ...]] = (-1, (-1,))\n"),
+    (A, "            specificity = self._specificity(client_item)\n" + _GATE + "            # better quality or same quality but more specific => better match\n" + _REPL + _UPD,
+     "            if quality <= 0:\n                continue\n            rank = (quality, self._specificity(client_item))\n            if rank > best:\n                result = server_item\n                best = %s\n"),
+]
+_R4_NORMALIZE = "            try:\n                return codecs.lookup(name).name\n            except LookupError:\n                return name.lower()\n"
+_R4_MODULE_NORMALISER = (
+    "def _normalize_charset(name: str) -> str:\n    try:\n        info = codecs.lookup(name)\n    except LookupError:\n        return %s\n\n    return info.name\n\n\n"
+    "class CharsetAccept(Accept):"
+)
+_R4_CHARSET_BODY = (
+    "        def _normalize(name: str) -> str:\n" + _R4_NORMALIZE + "\n" + _CHARSET_VM
+)
+MUTANTS += [
+    {"name": "tie-branch-leaves-best-specificity-behind", "expect": "R17.2", "edits": [(A, _REPL + _UPD,
+        "            if quality > best_quality:\n" + _UPD + "            elif specificity > best_specificity:\n                result = server_item\n")]},
+    {"name": "specificity-remembered-only-on-a-quality-gain", "expect": "R17.2", "edits": [(A, _UPD,
+        "                result = server_item\n                if quality > best_quality:\n                    best_specificity = specificity\n                best_quality = quality\n")]},
+    {"name": "best-specificity-only-ratchets-up", "expect": "R17.2", "edits": [(A, "                best_specificity = specificity\n", "                best_specificity = max(best_specificity, specificity)\n")]},
+    {"name": "rank-tuple-state-keeps-the-old-specificity", "expect": "R17.2", "edits": [(a, o, n.replace("%s", "(quality, max(rank[1], best[1]))")) for a, o, n in _R4_TUPLE_STATE]},
+    {"name": "charset-unknown-label-kept-verbatim", "expect": "R17.4", "edits": [(A, "            except LookupError:\n                return name.lower()\n", "            except LookupError:\n                return name\n")]},
+    {"name": "charset-handler-misses-lookup-error", "expect": "R17.4", "edits": [(A, "            except LookupError:\n                return name.lower()\n", "            except KeyError:\n                return name.lower()\n")]},
+    {"name": "charset-module-normaliser-keeps-case-of-unknown-labels", "expect": "R17.4", "edits": [
+        (A, _R4_CHARSET_BODY, '        return item == "*" or _normalize_charset(value) == _normalize_charset(item)'),
+        (A, "class CharsetAccept(Accept):", _R4_MODULE_NORMALISER % "name")]},
+    {"name": "charset-known-codec-compared-by-its-label", "expect": "R17.4", "edits": [(A, "                return codecs.lookup(name).name\n", "                return codecs.lookup(name) and name.lower()\n")]},
+]
+TWINS += [
+    {"name": "tie-branch-updates-only-the-specificity", "edits": [(A, _REPL + _UPD,
+        "            if quality > best_quality:\n" + _UPD + "            elif specificity > best_specificity:\n                result = server_item\n                best_specificity = specificity\n")]},
+    {"name": "best-quality-raised-under-its-own-test", "edits": [(A, _UPD,
+        "                if quality > best_quality:\n                    best_quality = quality\n                result = server_item\n                best_specificity = specificity\n")]},
+    {"name": "best-quality-kept-by-max", "edits": [(A, "                best_quality = quality\n", "                best_quality = max(best_quality, quality)\n")]},
+    {"name": "rank-tuple-state-rebuilt-from-its-parts", "edits": [(a, o, n.replace("%s", "(quality, rank[1])")) for a, o, n in _R4_TUPLE_STATE]},
+    {"name": "charset-module-normaliser-returns-after-the-try", "edits": [
+        (A, _R4_CHARSET_BODY, '        return item == "*" or _normalize_charset(value) == _normalize_charset(item)'),
+        (A, "class CharsetAccept(Accept):", _R4_MODULE_NORMALISER % "name.lower()")]},
+    {"name": "charset-normaliser-rebinds-the-name-in-the-try", "edits": [(A, _R4_NORMALIZE, "            try:\n                name = codecs.lookup(name).name\n            except LookupError:\n                name = name.lower()\n            return name\n")]},
+    {"name": "charset-lookup-imported-by-name", "edits": [(A, "import codecs\n", "import codecs\nfrom codecs import lookup as _find_codec\n"), (A, "                return codecs.lookup(name).name\n", "                return _find_codec(name).name\n")]},
+    {"name": "charset-handler-catches-more", "edits": [(A, "            except LookupError:\n                return name.lower()\n", "            except (LookupError, TypeError):\n                return name.lower()\n")]},
+    {"name": "charset-unknown-label-lowered-before-the-try", "edits": [(A, _R4_NORMALIZE, "            lowered = name.lower()\n            try:\n                return codecs.lookup(lowered).name\n            except LookupError:\n                return lowered\n")]},
 ]
